@@ -25,7 +25,7 @@ PROPS = {
                 mc=["core1", "tandem", "tri", "cls", "renege", "schedpre", "slot", "ccw", "jockey", "infblock", "renegesched"], inv=["Inv_C01"], step=["Step_C01"]),
     "C02": dict(fam=["core1", "tandem", "prio", "renege", "cls", "schedblock", "slotren", "preblock"],
                 mc=["core1", "tandem", "renege", "prio", "renegesched", "slotpre", "infblock"], inv=[], step=["Step_C02"]),
-    "C03": dict(fam=["tandem", "route", "cls", "renege", "prio", "schedblock", "infblock", "preblock"],
+    "C03": dict(fam=["tandem", "route", "cls", "renege", "prio", "schedblock", "infblock", "preblock", "jockey"],
                 mc=["tandem", "tri", "route", "cls", "jockey", "infblock"], inv=["Inv_C03"], step=["Step_C03"]),
     "C06": dict(fam=["core1", "tandem", "renege"], mc=["core1", "tandem", "jockey"], inv=["Inv_C06"], step=["Step_C06"]),
     "C07": dict(fam=["tandem", "cls", "route", "preblock", "infblock", "overblock", "ppblock", "slotblock"], mc=["tandem", "tri", "cls", "infblock"], inv=["Inv_C07"], step=["Step_C07"]),
